@@ -139,7 +139,7 @@ func (p *pipeCtx) emit(r *pRun, res *pResult, o pEvalOpts) {
 	c.rep.TracesValidated++
 	c.count(o.props, strings.Join(labels, ";"), o.nontrivial, desc)
 	c.dist("run_kind", o.kind)
-	c.dist("log_length", bucket(len(terms)))
+	c.dist("log_length", pBucket(len(terms)))
 	for _, pr := range res.problems {
 		c.mismatch(o.sig, "harness/hook problem in run "+r.name+": "+pr, desc)
 	}
@@ -147,7 +147,7 @@ func (p *pipeCtx) emit(r *pRun, res *pResult, o pEvalOpts) {
 	p.n++
 }
 
-func bucket(n int) string {
+func pBucket(n int) string {
 	switch {
 	case n < 20:
 		return "<20"
@@ -747,7 +747,7 @@ func pLimits(p *pipeCtx, idx int) {
 			nofl++
 		}
 	}
-	p.c.dist("limit_flushes", bucket(fl))
+	p.c.dist("limit_flushes", pBucket(fl))
 	p.emit(r, res, pEvalOpts{props: []string{"C10"}, nontrivial: fl > 0 && nofl > 0, kind: "limits",
 		extra: map[string]any{"limit_flushes": fl, "buffered_without_flush": nofl, "partitions": nParts}})
 }
